@@ -287,6 +287,12 @@ theorem gen_collector_shape :
     BlugeGen.C09.collectorReversesACopy = true ∧ BlugeGen.C09.reverseFlips = ["desc", "missingFirst"] := by
   decide
 
+/-- `bluge.MultiSearch` runs ONE collector with ONE `search.Context` over the searchers of several readers;
+the model hands the collector the concatenated match stream with every match carrying the sort value of
+its own document. That needs `Context.DocValueReaderForReader` to be keyed by the reader a hit came from
+(regenerated fact; the correspondence stream checks the behaviour on 2-3 real indexes). -/
+theorem gen_doc_values_read_from_the_hits_reader : BlugeGen.C09.dvReaderKeyedByReader = true := by decide
+
 /-- the consequence for a caller (two-request script on the model, shallow copy): an ascending sort,
 re-used after one `Before` request, answers in descending order; with a deep copy it does not -/
 example :
